@@ -21,7 +21,7 @@ EXPLANATION = (
     "grid reads use clamped indices; (D4) insert_abs shifts right with a descending loop (reads ci-1, writes ci) and "
     "writes the new character after the shift; (D5) fill_region and get_region both clamp all four coordinates and "
     "normalise swapped corners the same way; (D6) cursor_back/forward/up/down move in the direction their name says, by "
-    "count; save/restore copy same-named fields without crossing rows and columns; (D7) lf()/cr()/crlf() composition. "
+    "count; save/restore copy same-named fields without crossing rows and columns; (D7) lf()/cr()/crlf() composition; (D8) the two scroll moves, evaluated abstractly for every grid height and scroll region of a small box: rows inside the region shift by one, the height is kept and no two rows end up as the same list object (shared with C18-D5). "
     "NOT decided: cell-exact equality with a reference grid over operation sequences.")
 TRUSTED = ["list indexing / range() semantics", "sa/ engine (effect closure, symbolic intervals)"]
 ASSUMPTIONS = ["cursor invariant cur_r in [1,rows], cur_c in [1,cols] (established by C18-D6: every writer ends in cursor_constrain)",
@@ -97,6 +97,17 @@ def run(R):
         check_ranges(c, repo)
     with R.clause('D4', 'DEP', floor=4, desc='insert_abs shifts right: descending loop, read ci-1 write ci, new character last') as c:
         check_insert(c, scr.methods['insert_abs'])
+    with R.clause('D8', 'ALIAS', floor=6, desc='scroll moves: rows shift by one inside the region, height kept, no two rows share a list object') as c:
+        from .c18 import check_row_move
+        nmv = 0
+        for name in ('scroll_up', 'scroll_down'):
+            f = scr.methods[name]
+            for st in iter_nodes(f.node):
+                if isinstance(st, ast.Assign) and isinstance(st.targets[0], ast.Subscript) and isinstance(st.targets[0].slice, ast.Slice) \
+                        and norm(st.targets[0].value) == 'self.w':
+                    nmv += 1
+                    check_row_move(c, f, st, st.targets[0])
+        c.need(nmv == 2, 'expected one row move in scroll_up and one in scroll_down, found %d' % nmv)
     with R.clause('D5', 'SIB', floor=6, desc='fill_region and get_region clamp and normalise corners identically') as c:
         check_regions(c, scr)
     with R.clause('D6', 'SIGN', floor=8, desc='movement signs; save/restore copy same-named fields') as c:
@@ -396,6 +407,7 @@ MUTANTS = [
     ('restore-crossed', 'screen', "        self.cursor_home (self.cur_saved_r, self.cur_saved_c)", "        self.cursor_home (self.cur_saved_c, self.cur_saved_r)", 'D6'),
     ('lf-always-scrolls', 'screen', "        old_r = self.cur_r\n        self.cursor_down()\n        if old_r == self.cur_r:\n            self.scroll_up ()\n            self.erase_line()", "        old_r = self.cur_r\n        self.cursor_down()\n        self.scroll_up ()\n        self.erase_line()", 'D7'),
     ('cr-col-0', 'screen', "        self.cursor_home (self.cur_r, 1)", "        self.cursor_home (1, 1)", 'D7'),
+    ('scroll-down-shares-rows', 'screen', "        self.w[s+1:e+1] = copy.deepcopy(self.w[s:e])", "        self.w[s+1:e+1] = self.w[s:e]", 'D8'),
     ('erase-sol-exclusive', 'screen', "        self.fill_region (self.cur_r, 1, self.cur_r, self.cur_c)", "        self.fill_region (self.cur_r, 1, self.cur_r, self.cur_c - 1)", 'D3'),
 ]
 PRESERVING = []
